@@ -219,7 +219,7 @@ def compute_attractor_candidates(
             avoid_subspaces=child_motifs_reduced,
             solution_limit=sd.config["attractor_candidates_limit"],
         )
-        if len(candidate_states) == sd.config["attractor_candidates_limit"]:
+        if len(candidate_states) >= sd.config["attractor_candidates_limit"]:
             raise RuntimeError(
                 f"Exceeded the maximum amount of attractor candidates ({sd.config['attractor_candidates_limit']}; see `SuccessionDiagramConfiguation.attractor_candidates_limit`)."
             )
@@ -292,9 +292,9 @@ def compute_attractor_candidates(
 
                 if (
                     len(candidate_states_zero)
-                    == sd.config["attractor_candidates_limit"]
+                    >= sd.config["attractor_candidates_limit"]
                     and len(candidate_states_one)
-                    == sd.config["attractor_candidates_limit"]
+                    >= sd.config["attractor_candidates_limit"]
                 ):
                     raise RuntimeError(
                         f"Exceeded the maximum amount of attractor candidates ({sd.config['attractor_candidates_limit']}; see `SuccessionDiagramConfiguation.attractor_candidates_limit`)."
